@@ -552,6 +552,22 @@ def tasks(ctx):
                 T.append((sweep, (ctx, f, variant, lo, hi, P / 20.0, 1, 20 if P < 5000 else 1, 'era')))
             T.append((leap_day_checks, (ctx, f, variant, centuries[::2] if thorough else centuries[::6] + [1500])))
             T.append((random_queries, (ctx, f, variant, 120 if thorough else 10, 30 if thorough else 3)))
+    # ---- a perihelion_aphelion / passage_nodes finder whose own source changed: EVERY orbit of -2000..4000 once
+    # (one query per period: a result, within one period of the query, in order, one period apart).  The second stage
+    # of these finders searches a bracket around the first approximation, and how close the true event comes to the
+    # edge of that bracket varies from orbit to orbit: a slip can hit a single orbit in six thousand years.
+    changed = set(ctx.hot.get('changed', [])) if isinstance(ctx.hot, dict) else set()
+    for f in FINDERSPA + FINDERSND:
+        planet, meth = f.split('.')
+        if ('pymeeus/%s.py:%s' % (planet, f)) not in changed:
+            continue
+        P = b[f]['B']
+        nsl = 8
+        for variant in (True, False):
+            for s_ in range(nsl):
+                lo = J_LO + (J_HI - J_LO) * s_ / nsl
+                hi = J_LO + (J_HI - J_LO) * (s_ + 1) / nsl
+                T.append((sweep, (ctx, f, variant, lo, hi, P, 50, 0, 'every_orbit')))
     return T
 
 
